@@ -18,14 +18,20 @@
 // end of a case (all handles destroyed) every object has been destroyed exactly once.
 //
 // Concurrent part, deterministic:  conc <progs> <schedule>
-//   progs = comma separated thread programs over the letters  c a b m n r q s u  (see below), every
-//   thread owns two local handles L0 (initially a copy of the shared handle) and L1 (empty) to ONE
-//   shared object; the creating handle is dropped before the threads start, so the last thread to
-//   let go destroys the object.  std::atomic inside namespace tlx is redirected to a shim whose
-//   operations are the scheduling points (plus the start of the object's destructor); exactly one
-//   thread runs between two scheduling points, chosen by the explicit schedule (k-th decision =
-//   schedule[k] mod number of unfinished threads; round-robin when the schedule is used up).
-//   answer: the event sequence  t<i>:inc=<new> t<i>:dec=<new> t<i>:load=<v> t<i>:del  ; count/destroyed.
+//   progs = comma separated thread programs over the letters listed at run_program(); every thread
+//   owns three local handles to ONE shared object: L0 (CountingPtr<Base>, initially a converting
+//   copy of the creating handle), L1 (CountingPtr<Base>, empty) and D (CountingPtr<Derived>, a copy);
+//   the creating handle is dropped before the threads start, so the last thread to let go destroys
+//   the object.  unify() on a local handle replaces it by a private copy of the object when the
+//   object is shared; private copies are thread-local and never scheduled.
+//   std::atomic inside namespace tlx is redirected to a shim; the scheduling points are the atomic
+//   operations on the SHARED object's counter, the start of its destructor and the start of a copy
+//   construction from it (`new Type(*ptr_)` in unify(), i.e. the window between the unique() test
+//   and the release).  Exactly one thread runs between two scheduling points, chosen by the explicit
+//   schedule (k-th decision = schedule[k] mod number of unfinished threads; round-robin afterwards).
+//   answer: the event sequence  t<i>:inc=<new> t<i>:dec=<new> t<i>:load=<v> t<i>:copy t<i>:del ;
+//   destroyed count.  Leak oracle: every object created during the run (the shared one and all
+//   private copies) must have been destroyed exactly once when all threads have finished.
 // Concurrent part, real threads:  stress <threads> <iterations> <seed>   (answer: final state only;
 //   the Lean driver answers the same line from the LTS' terminal-state theorem).
 #include <atomic>
@@ -39,10 +45,17 @@
 
 // ---------------------------------------------------------------- atomic shim (namespace tlx only)
 namespace c12 {
-enum Kind { K_INC, K_DEC, K_LOAD, K_DEL };
+enum Kind { K_INC, K_DEC, K_LOAD, K_DEL, K_COPY };
 void sched_point();                       // blocks until the scheduler lets this thread perform its next step
 void log_event(Kind k, size_t value);     // called right after the step was performed
 extern thread_local int tl_thread;        // >= 0 inside a scheduled worker
+// the counter of the shared object of the current `conc` run (only its operations are scheduled)
+extern const void* g_shared_rc;
+extern bool g_shared_dying;
+inline bool scheduled(const void* counter) { return tl_thread >= 0 && counter == g_shared_rc; }
+// ~ReferenceCounter's assert load is the last access to the dying object: forget its address
+// (a private copy allocated later may reuse it)
+inline void after_load(const void* counter) { if (counter == g_shared_rc && g_shared_dying) g_shared_rc = nullptr; }
 }  // namespace c12
 
 namespace tlx {
@@ -57,13 +70,25 @@ public:
     atomic(T v) noexcept : v_(v) {}   // NOLINT
     atomic(const atomic&) = delete;
     atomic& operator=(const atomic&) = delete;
-    T operator++() noexcept { c12::sched_point(); T r = ++v_; c12::log_event(c12::K_INC, r); return r; }
-    T operator--() noexcept { c12::sched_point(); T r = --v_; c12::log_event(c12::K_DEC, r); return r; }
-    operator T() const noexcept { c12::sched_point(); T r = v_.load(); c12::log_event(c12::K_LOAD, r); return r; }
+    T operator++() noexcept {
+        if (!c12::scheduled(this)) return ++v_;
+        c12::sched_point(); T r = ++v_; c12::log_event(c12::K_INC, r); return r;
+    }
+    T operator--() noexcept {
+        if (!c12::scheduled(this)) return --v_;
+        c12::sched_point(); T r = --v_; c12::log_event(c12::K_DEC, r); return r;
+    }
+    operator T() const noexcept {
+        if (!c12::scheduled(this)) return v_.load();
+        c12::sched_point(); T r = v_.load(); c12::log_event(c12::K_LOAD, r); c12::after_load(this); return r;
+    }
 };
 }  // namespace std
 }  // namespace tlx
 
+#ifdef NDEBUG
+#error "harness/c12.cpp models the assert loads of ReferenceCounter: build without NDEBUG"
+#endif
 #define private public
 #include <tlx/counting_ptr.hpp>
 #undef private
@@ -79,9 +104,14 @@ struct Base : public tlx::ReferenceCounter {
     int id;
     long payload;
     Base() : payload(42) { born(); }
-    Base(const Base& o) : tlx::ReferenceCounter(o), payload(o.payload) { born(); }
+    // copying FROM the shared object of a scheduled run is a scheduling point (unify(): `new Type(*ptr_)`)
+    Base(const Base& o) : tlx::ReferenceCounter(yield_copy(o)), payload(o.payload) { born(); }
+    static const Base& yield_copy(const Base& o) {
+        if (c12::scheduled(&o.reference_count_)) { c12::sched_point(); c12::log_event(c12::K_COPY, 0); }
+        return o;
+    }
     virtual ~Base() {
-        if (c12::tl_thread >= 0) { c12::sched_point(); c12::log_event(c12::K_DEL, 0); }
+        if (c12::scheduled(&reference_count_)) { c12::sched_point(); c12::log_event(c12::K_DEL, 0); c12::g_shared_dying = true; }
         std::lock_guard<std::mutex> lk(g_obj_mutex);
         if (g_objs[id].destroyed++) g_errors.push_back("object o" + std::to_string(id) + " destroyed again");
         g_live.erase(static_cast<const void*>(this));
@@ -239,6 +269,8 @@ static void end_case() {
 // ---------------------------------------------------------------- deterministic scheduler
 namespace c12 {
 thread_local int tl_thread = -1;
+const void* g_shared_rc = nullptr;
+bool g_shared_dying = false;
 struct Sched {
     std::mutex m;
     std::condition_variable cv;
@@ -262,9 +294,9 @@ void sched_point() {
 void log_event(Kind k, size_t value) {
     int me = tl_thread;
     if (me < 0 || !S.active) return;
-    static const char* names[] = { "inc", "dec", "load", "del" };
+    static const char* names[] = { "inc", "dec", "load", "del", "copy" };
     std::string e = "t" + std::to_string(me) + ":" + names[k];
-    if (k != K_DEL) e += "=" + std::to_string(value);
+    if (k != K_DEL && k != K_COPY) e += "=" + std::to_string(value);
     std::lock_guard<std::mutex> lk(S.m);
     S.events.push_back(e);
 }
@@ -272,13 +304,17 @@ void log_event(Kind k, size_t value) {
 
 typedef tlx::CountingPtr<Base> Ptr;
 
-// thread program letters (L0, L1 are the thread's local handles)
+// thread program letters (L0, L1 : CountingPtr<Base>, D : CountingPtr<Derived> are the thread's local handles)
 //   c  { Ptr tmp(L0); }      copy-construct a temporary, destroy it
 //   a  L1 = L0;              b  L0 = L1;              (copy-assign)
 //   m  L1 = std::move(L0);   n  L0 = std::move(L1);   (move-assign)
-//   r  L1.reset();           q  L0.reset();
-//   s  L0.swap(L1);          u  (void) L0.unique();   v  (void) L1.unique();
-static void run_program(const std::string& prog, Ptr& L0, Ptr& L1) {
+//   r  L1.reset();           q  L0.reset();           Q  D.reset();
+//   s  L0.swap(L1);          u  (void) L0.unique();   v  (void) L1.unique();   w  (void) D.unique();
+//   x  L0.unify();           y  L1.unify();           z  D.unify();
+//   converting operations (Derived handle -> Base handle):
+//   C  { Ptr tmp(D); }       K  { Ptr tmp(std::move(D)); }      (copy / move construction)
+//   A  L0 = D;               B  L1 = D;               M  L0 = std::move(D);   (copy / move assignment)
+static void run_program(const std::string& prog, Ptr& L0, Ptr& L1, DPtr& D) {
     for (char ch : prog) {
         switch (ch) {
         case 'c': { Ptr tmp(L0); } break;
@@ -288,15 +324,25 @@ static void run_program(const std::string& prog, Ptr& L0, Ptr& L1) {
         case 'n': L0 = std::move(L1); break;
         case 'r': L1.reset(); break;
         case 'q': L0.reset(); break;
+        case 'Q': D.reset(); break;
         case 's': L0.swap(L1); break;
         case 'u': (void)L0.unique(); break;
         case 'v': (void)L1.unique(); break;
+        case 'w': (void)D.unique(); break;
+        case 'x': L0.unify(); break;
+        case 'y': L1.unify(); break;
+        case 'z': D.unify(); break;
+        case 'C': { Ptr tmp(D); } break;
+        case 'K': { Ptr tmp(std::move(D)); } break;
+        case 'A': L0 = D; break;
+        case 'B': L1 = D; break;
+        case 'M': L0 = std::move(D); break;
         default: break;
         }
     }
 }
 
-static bool valid_prog(const std::string& p) { return p.find_first_not_of("cabmnrqsuv") == std::string::npos; }
+static bool valid_prog(const std::string& p) { return p.find_first_not_of("cabmnrqsuvQwxyzCKABM") == std::string::npos; }
 
 static void do_conc(const std::vector<std::string>& t, const std::string& line) {
     if (t.size() != 3) { vh::answer("bad-op"); return; }
@@ -310,9 +356,12 @@ static void do_conc(const std::vector<std::string>& t, const std::string& line) 
     using c12::S;
     int n = static_cast<int>(progs.size());
     size_t first_obj = g_objs.size();
-    Ptr root(new Derived());
-    std::vector<Ptr> l0(static_cast<size_t>(n)), l1(static_cast<size_t>(n));
-    for (int i = 0; i < n; ++i) l0[static_cast<size_t>(i)] = root;     // not scheduled: tl_thread < 0
+    DPtr root(new Derived());
+    std::vector<Ptr> l0(static_cast<size_t>(n));
+    std::vector<DPtr> dd(static_cast<size_t>(n));
+    for (int i = 0; i < n; ++i) { l0[static_cast<size_t>(i)] = root; dd[static_cast<size_t>(i)] = root; }   // not scheduled: tl_thread < 0
+    c12::g_shared_rc = static_cast<const void*>(&root->reference_count_);
+    c12::g_shared_dying = false;
     root.reset();
     S.nthreads = n; S.state.assign(static_cast<size_t>(n), 0); S.events.clear(); S.running = -1; S.active = true;
     std::vector<std::thread> th;
@@ -320,10 +369,11 @@ static void do_conc(const std::vector<std::string>& t, const std::string& line) 
         th.emplace_back([&, i] {
             c12::tl_thread = i;
             {
-                // local handles live exactly as long as the thread's program: L1 is destroyed first
+                // local handles live exactly as long as the thread's program: destroyed in the order D, L1, L0
                 Ptr L0(std::move(l0[static_cast<size_t>(i)]));
-                Ptr L1(std::move(l1[static_cast<size_t>(i)]));
-                run_program(progs[static_cast<size_t>(i)], L0, L1);
+                Ptr L1;
+                DPtr D(std::move(dd[static_cast<size_t>(i)]));
+                run_program(progs[static_cast<size_t>(i)], L0, L1, D);
             }
             std::unique_lock<std::mutex> lk(S.m);
             S.state[static_cast<size_t>(i)] = 2;
@@ -349,6 +399,7 @@ static void do_conc(const std::vector<std::string>& t, const std::string& line) 
     }
     for (auto& x : th) x.join();
     S.active = false;
+    c12::g_shared_rc = nullptr;
     std::ostringstream os;
     for (size_t i = 0; i < S.events.size(); ++i) os << (i ? " " : "") << S.events[i];
     if (S.events.empty()) os << "-";
@@ -358,6 +409,10 @@ static void do_conc(const std::vector<std::string>& t, const std::string& line) 
     for (auto& e : g_errors) vh::viol("countingptr concurrent: " + e + " in " + line);
     g_errors.clear();
     if (o.destroyed != 1) vh::viol("countingptr concurrent: shared object destroyed " + std::to_string(o.destroyed) + " times after all threads released it, in " + line);
+    // leak oracle for the private copies made by unify()
+    for (size_t i = first_obj + 1; i < g_objs.size(); ++i)
+        if (g_objs[i].destroyed != 1)
+            vh::viol("countingptr concurrent: private copy o" + std::to_string(i - first_obj) + " destroyed " + std::to_string(g_objs[i].destroyed) + " times after all threads finished, in " + line);
     // once the destructor has begun, nothing but the destroying thread's own assert-load
     // (~ReferenceCounter: assert(reference_count_ == 0)) may touch the object
     for (size_t i = 0; i < S.events.size(); ++i) {
@@ -389,7 +444,7 @@ static void do_stress(const std::vector<std::string>& t, const std::string& line
             Ptr L1;
             while (!go.load()) std::this_thread::yield();
             for (long it = 0; it < iters; ++it) {
-                switch (rng.below(8)) {
+                switch (rng.below(10)) {
                 case 0: { Ptr tmp(L0); if (tmp) { size_t c = tmp.use_count(); size_t m = max_seen.load(); while (c > m && !max_seen.compare_exchange_weak(m, c)) {} } } break;
                 case 1: L1 = L0; break;
                 case 2: L1.reset(); break;
@@ -397,7 +452,9 @@ static void do_stress(const std::vector<std::string>& t, const std::string& line
                 case 4: L0.swap(L1); if (!L0) L0.swap(L1); break;
                 case 5: { Ptr a(L0), b(a), c(std::move(b)); a = c; } break;
                 case 6: if (L1) L0 = L1; break;
-                default: { Ptr tmp(L0); Ptr tmp2; tmp2 = tmp; tmp.reset(); } break;
+                case 7: { Ptr tmp(L0); Ptr tmp2; tmp2 = tmp; tmp.reset(); } break;
+                case 8: { Ptr tmp(L0); tmp.unify(); } break;             // clones (the object is shared), drops the clone
+                default: { Ptr tmp(L0); Ptr t2(tmp); t2.unify(); tmp = t2; } break;
                 }
             }
         });
@@ -410,6 +467,8 @@ static void do_stress(const std::vector<std::string>& t, const std::string& line
     for (auto& e : g_errors) vh::viol("countingptr stress: " + e + " in " + line);
     g_errors.clear();
     if (o.destroyed != 1) vh::viol("countingptr stress: shared object destroyed " + std::to_string(o.destroyed) + " times after all threads released it, in " + line);
+    for (size_t i = first_obj + 1; i < g_objs.size(); ++i)
+        if (g_objs[i].destroyed != 1) { vh::viol("countingptr stress: a private copy made by unify() was destroyed " + std::to_string(g_objs[i].destroyed) + " times, in " + line); break; }
     if (max_seen.load() > static_cast<size_t>(5 * n + 1)) vh::viol("countingptr stress: use_count " + std::to_string(max_seen.load()) + " exceeds the number of handles that can exist, in " + line);
 }
 
